@@ -156,6 +156,25 @@ def check_C10(tier):
                 if t["ins"]:
                     for o in t["outs"]: chk.nontrivial.add("%s:%s" % (inst["name"], o))
         chk.sample(dict(kind="audit-files", instance=inst["name"], runs=len(rrs), outputs=len(exp["files"])), limit=8)
+    # tags attached to files that travel as sub-stream members must reach the joined task's record
+    inst = dict(name="TGJ", max=2, bufsize=4,
+                procs=[src("s", zoo.items(3)), dict(name="mt", kind="maptotags", tags={"batch": "b7"}), dict(name="ss", kind="substream"),
+                       dict(name="cat", kind="cmd", ins=["in"], outs=["out"], joins={"in": " "}, arg="cat {i:in|join: } > {o:out}")],
+                edges=[E("s.out", "mt.in"), E("mt.out", "ss.in"), E("ss.substream", "cat.in")])
+    rr = fc.real_runs(inst, [dict(env={}, bufsize=4, timeout=30)])[0]
+    chk.evaluations += 1
+    aud = rr.snapshot.get("o/cat.out_.txt.audit.json", {}).get("text")
+    if rr.rc != 0 or not aud:
+        chk.undecided.append("tag/sub-stream scenario failed: %s" % rr.stderr[-200:])
+    else:
+        rec = json.loads(aud)
+        member_tags = [(v.get("Tags") or {}) for v in (rec.get("Upstream") or {}).values()]
+        if all(t.get("batch") == "b7" for t in member_tags) and (rec.get("Tags") or {}).get("batch") != "b7":
+            msg = "tags carried by the members of a sub-stream (batch=b7 on every member) are absent from the joined task's audit record"
+            if findings.active("F8"): chk.known_finding("F8", msg)
+            else: chk.violation(msg, dict(instance=inst, record={k: rec[k] for k in ("ProcessName", "Tags")}))
+        elif not all(t.get("batch") == "b7" for t in member_tags):
+            chk.violation("sub-stream member records lost the tag attached by MapToTags: %s" % member_tags, dict(instance=inst))
     # lineage of the specification vs projected real records: complete runs as one-step histories
     for inst in [FA(), FB(), FD()] + ([FC()] if thorough else []):
         hs = [fs.History(inst, [("run", None)], label="complete run")]
